@@ -153,13 +153,24 @@ def side_case(seed):
         if rng.random() < 0.5:
             pairs.append((np.arange(0, m - 2), np.arange(2, m)))
         npairs = len(pairs)
-    desc = dict(which=variant, d=d, p=p, N=N, m=m, npairs=npairs, sizes=[len(a) for a, _ in pairs])
+    ityped = False
+    if not np.any(x != np.rint(x)) or rng.random() < 0.15:
+        # integer-valued snapshots handed over as an int64 array (lattice points, counts)
+        x = np.rint(2 * x).astype(np.int64)
+        ityped = True
+    desc = dict(which=variant, d=d, p=p, N=N, m=m, npairs=npairs, sizes=[len(a) for a, _ in pairs], int_typed=ityped)
     try:
-        P = psi_matrix(tables(x, basis))
+        P = psi_matrix(tables(x.astype(float), basis))
         xs = x.copy()
         kw = dict(threshold=1e-12) if variant == 'hosvd' else dict(max_rank=1000)
+        if variant == 'hocur' and rng.random() < 0.4:
+            kw = dict(max_rank=[1] + [1000] * p + [1])         # per-bond list; must survive the calls
+        mr_keep = list(kw['max_rank']) if isinstance(kw.get('max_rank'), list) else None
         f = ted.amuset_hosvd if variant == 'hosvd' else ted.amuset_hocur
         sv = np.linalg.svd(P, compute_uv=False)
+        if sv[0] == 0 or any(not np.any(P[:, a_]) for a_, _ in pairs):
+            desc['skipped'] = 'zero data'
+            return None, desc
         if variant == 'hocur':
             # the cross approximation is exact only if it may keep every rank; tiny problems only
             if m > 8 or sv[-1] < 1e-6 * sv[0]:
@@ -173,6 +184,14 @@ def side_case(seed):
             ev_l, et_l = [ev_l], [et_l]
         if not np.array_equal(x, xs):
             return 'data matrix modified', desc
+        if mr_keep is not None and kw['max_rank'] != mr_keep:
+            return 'the list handed in as max_rank was modified: %s -> %s' % (mr_keep, kw['max_rank']), desc
+        if variant == 'hosvd' and rng.random() < 0.3:
+            # optional outputs: every returned tensor train is consistent
+            out = ted.amuset_hosvd(x, pairs[0][0], pairs[0][1], basis, threshold=1e-12, ef_tf=rng.random() < 0.5, st_tf=True)
+            for o_ in out:
+                if isinstance(o_, TT) and not consistent(o_):
+                    return 'amuset_hosvd(st_tf=True) returned an inconsistent tensor train (row_dims %s, core shapes %s)' % (o_.row_dims, [c.shape for c in o_.cores]), desc
         if len(ev_l) != npairs or len(et_l) != npairs:
             return 'list call returned %d results for %d pairs' % (len(ev_l), npairs), desc
         if len(set(map(id, et_l))) != npairs:
